@@ -51,7 +51,7 @@ def make_broker(equity, rate, dh):
 def check_call(sizer, dh, equity, buf, rate, ws, ps):
     """One real call; returns (fails, ambiguous, outcome)."""
     n = len(ws)
-    assets = ASSETS[:n]
+    assets = ASSETS[:n] if n <= len(ASSETS) else ['EQ:W%02d' % i for i in range(n)]
     dh.ask = {a: float(fw(p)) for a, p in zip(assets, ps)}
     # whole-number weights are passed as python ints, the others as floats (both are legal weight types)
     weights = {a: (int(fw(w)) if fw(w).denominator == 1 else float(fw(w))) for a, w in zip(assets, ws)}
@@ -136,10 +136,52 @@ def group(item):
                 nz += 1
         if len(viols) > 10:
             break
+    # phase 5: the buffer of the live sizer is changed (sizer.cash_buffer_percentage = x, as a risk overlay or a
+    # parameter sweep on a prepared trading system does): sizing must follow the buffer the sizer now shows
+    if not viols:
+        for b2 in BUFFERS:
+            if b2 == buf:
+                continue
+            sizer.cash_buffer_percentage = float(fw(b2))
+            for ws in itertools.product(WEIGHTS[2:5], repeat=len(ps)):
+                f, a, oc = check_call(sizer, dh, half if withdrawn else fw(equity), b2, rate, ws, ps)
+                n += 1
+                amb += a
+                viols += [dict(x, case=dict(x['case'], buffer_at_construction=buf)) for x in f]
+            if viols:
+                break
     return {'viols': viols[:10], 'execs': n, 'evals': n, 'ambiguous': amb, 'nontrivial': nz > 0,
             'outcome': (item, tuple(sorted(outs))), 'counters': {'calls_with_nonzero_target': nz},
             'sample': {'equity': equity, 'buffer': buf, 'fee_rate': rate, 'asks': list(ps),
                        'distinct_targets': len(outs)}}
+
+
+def wide_group(item):
+    """Wide weight vectors (8 / 12 / 40 assets): rotations of the weight and price alphabets on one sizer."""
+    from qstrader.portcon.order_sizer.dollar_weighted import DollarWeightedCashBufferedOrderSizer
+    nassets, equity, buf, rate = item
+    dh = PriceStub()
+    broker = make_broker(equity, rate, dh)
+    sizer = DollarWeightedCashBufferedOrderSizer(broker, 'p', dh, cash_buffer_percentage=float(fw(buf)))
+    viols, amb, n, nz = [], 0, 0, 0
+    for k in range(len(WEIGHTS)):
+        for j in (0, 1, 3):
+            ws = tuple(WEIGHTS[(i * (j + 1) + k) % len(WEIGHTS)] for i in range(nassets))
+            ps = tuple(ASKS[(i + j + k) % len(ASKS)] for i in range(nassets))
+            f, a, oc = check_call(sizer, dh, equity, buf, rate, ws, ps)
+            n += 1
+            amb += a
+            viols += f
+            nz += 1 if oc and any(oc) else 0
+        if viols:
+            break
+    return {'viols': viols[:6], 'execs': n, 'evals': n, 'ambiguous': amb, 'nontrivial': nz > 0, 'outcome': ('wide',) + tuple(item),
+            'counters': {'wide_vector_calls': n}}
+
+
+def wide_items(tier):
+    ns = (8, 12) if tier == 'quick' else (8, 9, 12, 33, 40)
+    return [(n, e, b, r) for n in ns for e in EQUITIES[2:] for b in BUFFERS[:3] for r in RATES[:2]]
 
 
 def refusal(item):
@@ -219,6 +261,7 @@ def run(tier, res, is_known):
                         'accepts both neighbours and is counted in boundary_ambiguous',
                         'estimated fee = rate x allocation (percentage model, quantity-independent)']
     product(group, its, res, is_known, label='sizing grid', sample_every=397)
+    product(wide_group, wide_items(tier), res, is_known, label='wide weight vectors (8-40 assets)', chunk=4)
     product(refusal, refusal_items(), res, is_known, label='refusal grid')
     product(wiring_refusal, [(via, bad) for via in ('qts', 'session') for bad in [-0.01, 1.01, -1, 2]], res, is_known,
             label='refusals through the system wiring')
@@ -232,7 +275,11 @@ def replay(case):
         return refusal(tuple(case['item']))['viols']
     dh = PriceStub()
     broker = make_broker(case['equity'], case['rate'], dh)
-    sizer = DollarWeightedCashBufferedOrderSizer(broker, 'p', dh, cash_buffer_percentage=float(fw(case['buffer'])))
+    if 'buffer_at_construction' in case:
+        sizer = DollarWeightedCashBufferedOrderSizer(broker, 'p', dh, cash_buffer_percentage=float(fw(case['buffer_at_construction'])))
+        sizer.cash_buffer_percentage = float(fw(case['buffer']))
+    else:
+        sizer = DollarWeightedCashBufferedOrderSizer(broker, 'p', dh, cash_buffer_percentage=float(fw(case['buffer'])))
     f, _, _ = check_call(sizer, dh, case['equity'], case['buffer'], case['rate'], case['weights'], case['asks'])
     return f
 
